@@ -1,6 +1,7 @@
 #!/bin/bash
-# Final pass on the committed code: selftest, seeded changes and controls (scratch copies, VERIF_SEED 0 and 1), then a soak.
+# Final pass on the committed code: selftest, seeded changes and controls (scratch copies), then a soak.
+# usage: tools/final_regression.sh "<seeds for the matrix>" <first soak seed> <last soak seed>
 cd "$(dirname "$0")/.."
 echo "== selftest"; timeout 7000 /venv/bin/python check selftest 2>&1 </dev/null | cut -c1-200
-tools/seeded_matrix.sh 0 1
-echo "== soak"; tools/soak.sh 60 69
+tools/seeded_matrix.sh ${1:-0 1}
+echo "== soak"; tools/soak.sh ${2:-60} ${3:-69}
